@@ -15,7 +15,7 @@ Modes (see mode_for):
 
 import struct
 
-from sim.core import HarnessError, short
+from sim.core import SetupViolation, HarnessError, short
 from sim.ref_ws import FrameParser, SenderMonitor, encode_frame
 from worlds.stack import StackWorld, StubSession, make_ser
 from worlds.ws import exc_site
@@ -285,7 +285,7 @@ class World(StackWorld):
         self.peer.send(hs)
         self.pump_all()
         if sess.opens != 1:
-            raise HarnessError("rs-limits: session not attached")
+            raise SetupViolation("session-not-attached-after-valid-handshake:rs", "rs-limits")
         # what the peer will send: frames around / beyond the local maximum
         self.peer_frames = []
         if ch.flag("peer-oversize", 0.6):
@@ -330,7 +330,7 @@ class World(StackWorld):
             self.peer.send(bytes([0x7F, (15 << 4) | RS_ID[ser], 0, 0]))
         self.pump_all()
         if what != "session-raises-onOpen" and sess.opens != 1:
-            raise HarnessError("corrupt: session not attached (%s %s)" % (kind, ser))
+            raise SetupViolation("session-not-attached-after-valid-handshake:%s" % kind, ser)
         from autobahn.wamp import message as M
         s = make_ser(ser)
         good, is_bin = s.serialize(M.Published(1, 2))
@@ -385,6 +385,11 @@ class World(StackWorld):
                 ready = len(self.peer.received) >= 4 or self.e.t.is_gone()
             if self.todo and not self.peer.closed and ready:
                 acts.append((4.0, "peer-send", self.peer_send))
+            if name == "corrupt" and self.cfg.get("kind") == "ws" and not self.todo and not self.peer.closed \
+                    and getattr(self.e.monitor, "close_count", 0) >= 1 and not getattr(self, "close_replied", False) \
+                    and not self.e.t.is_gone():
+                # the peer answers our close frame - and then (see drain) does not drop TCP by itself
+                acts.append((2.0, "peer-close-reply", self.peer_close_reply))
         elif name == "ws-negotiate":
             if not self.sent_probe and all(s.opens for s in self.sessions):
                 acts.append((3.0, "probe-messages", self.ws_probe))
@@ -408,6 +413,12 @@ class World(StackWorld):
             data = data[:k]
         self.corrupt_started = True
         self.peer.send(data)
+
+    def peer_close_reply(self):
+        self.close_replied = True
+        mask = b"\x05\x06\x07\x08" if self.cfg["server"] else None
+        self.run.fault("peer-answers-close-keeps-tcp-open")
+        self.peer.send(encode_frame(8, struct.pack("!H", 1000), mask=mask))
 
     def bad_data_delivered(self):
         # everything the peer was to send has been emitted and delivered
@@ -687,6 +698,9 @@ class World(StackWorld):
         else:
             if not e.t.is_gone():
                 run.violate("C13.fail-closed", "rs-transport-still-open:%s" % what, "")
+        # told exactly once: an attached session whose transport is gone has seen onClose - once
+        if sess.opens == 1 and e.t.is_gone() and sess.closes != 1:
+            run.violate("C13.told-once", "onClose-x%d" % sess.closes, "%s, %s" % (kind, what))
         run.probe("corrupt:" + what)
 
     def nontrivial(self):
